@@ -125,35 +125,37 @@ def main():
 
     # ---- (2) keep rule
     res, keeps = tlc_part(V, 'Transformers/keep', defs, dict(base, Part='"keep"'), ['KeepBoundaries', 'EmitKeep'], 'KEEP')
-    sym = {0: '-1', 1: '0', 2: '1', 3: '4'}
-    items = []
-    for _, counts, keep, amb in keeps:
-        vals = [sym[i] for i in range(4) for _ in range(counts[i])]
-        rng.shuffle(vals)
-        items.append({'values': vals, 'preset': 'minimal', 'want': ['x_tr_sqrt']})
-    got = PC.pipe_eval([{'op': 'transform_columns', 'items': items[i:i + 100]} for i in range(0, len(items), 100)], modules=['sketch_ops'])
-    flat = []
-    for r_ in got:
-        if not r_ or 'ok' not in r_:
-            raise E.MachineryError('transform_columns failed: ' + PC.failure_text(r_))
-        flat += r_['ok']
-    nontriv = 0
-    for (_, counts, keep, amb), it, ob in zip(keeps, items, flat):
-        key = f'keep-rule:symbols(NaN,a,b,c)={list(counts)}'
-        if sum(1 for c in counts if c) >= 2:
-            nontriv += 1
-        if 'error' in ob:
-            V.violation('raises:' + key, f'construct_new_features raised {ob["error"]}', it)
-            continue
-        emitted = 'x_tr_sqrt' in ob['new']
-        if amb:
-            continue
-        if emitted != keep:
-            n = sum(counts)
-            V.violation(key, f'column with {n} rows (NaN x{counts[0]}, values x{list(counts[1:])}) was {"emitted" if emitted else "dropped"}; rule (>1 distinct, most frequent < 80%, NaN < 75%) says {"emit" if keep else "drop"}', it)
-        if not ob['untouched']:
-            V.violation('untouched:' + key, 'input columns changed', it)
-    V.count(evaluations=len(keeps), nontrivial=nontriv, traces=len(keeps))
+    # two renderings of the model's symbols (NaN, a, b, c) as input cells for x_tr_sqrt: plain values, and one in which
+    # a and b are the two zeros (sqrt gives the texts '0.0' and '-0.0': distinct values of the emitted text column)
+    for rendering, sym in (('plain', {0: '-1', 1: '0', 2: '1', 3: '4'}), ('signed-zero', {0: '-1', 1: '0', 2: '-0.0', 3: '4'})):
+        items = []
+        for _, counts, keep, amb in keeps:
+            vals = [sym[i] for i in range(4) for _ in range(counts[i])]
+            rng.shuffle(vals)
+            items.append({'values': vals, 'preset': 'minimal', 'want': ['x_tr_sqrt']})
+        got = PC.pipe_eval([{'op': 'transform_columns', 'items': items[i:i + 100]} for i in range(0, len(items), 100)], modules=['sketch_ops'])
+        flat = []
+        for r_ in got:
+            if not r_ or 'ok' not in r_:
+                raise E.MachineryError('transform_columns failed: ' + PC.failure_text(r_))
+            flat += r_['ok']
+        nontriv = 0
+        for (_, counts, keep, amb), it, ob in zip(keeps, items, flat):
+            key = f'keep-rule:{rendering}:symbols(NaN,a,b,c)={list(counts)}'
+            if sum(1 for c in counts if c) >= 2:
+                nontriv += 1
+            if 'error' in ob:
+                V.violation('raises:' + key, f'construct_new_features raised {ob["error"]}', it)
+                continue
+            emitted = 'x_tr_sqrt' in ob['new']
+            if amb:
+                continue
+            if emitted != keep:
+                n = sum(counts)
+                V.violation(key, f'column with {n} rows (NaN x{counts[0]}, values x{list(counts[1:])}) was {"emitted" if emitted else "dropped"}; rule (>1 distinct, most frequent < 80%, NaN < 75%) says {"emit" if keep else "drop"}', it)
+            if not ob['untouched']:
+                V.violation('untouched:' + key, 'input columns changed', it)
+        V.count(evaluations=len(keeps), nontrivial=nontriv, traces=len(keeps))
 
     # ---- (3) fw family
     for scale, maxx, sb, label in ((1, 150, 13, 'integers'), (100, 100, 2, 'probabilities')):
@@ -244,4 +246,9 @@ if __name__ == '__main__':
         sys.exit(main())
     except E.MachineryError as e:
         print(f'MACHINERY-FAILURE {PID}: {e}', file=sys.stderr)
+        sys.exit(2)
+    except Exception as e:  # unexpected harness error: machinery failure, never a verdict
+        import traceback
+        traceback.print_exc()
+        print(f'MACHINERY-FAILURE {PID}: unexpected {type(e).__name__}: {e}', file=sys.stderr)
         sys.exit(2)
